@@ -190,6 +190,7 @@ def rule_peer_shaped_sinks(S, res):
                                 ok = True  # every element of that collection was measured
                     if ok:
                         n_guarded += 1
+                        res.ok("R1.i", "%s|%s[]|%s" % (b.owner.rsplit("::", 1)[-1], (b.locals[rl]["name"] if rl is not None and b.locals[rl]["name"] else "?"), lab), where(b, e.block), "`%s` on a peer-sized vector behind a fail-closed length test" % tail)
                         continue
                     var = b.locals[rl]["name"] if rl is not None and b.locals[rl]["name"] else "?"
                     res.bad("R1.i", "%s|%s[]|%s" % (b.owner.rsplit("::", 1)[-1], var, lab),
